@@ -2,6 +2,7 @@ import GrVerif.Proofs.PassBounds
 import GrVerif.Proofs.LoopBound2
 import GrVerif.Proofs.VmSafe2
 import GrVerif.Proofs.FsmSafe
+import GrVerif.Proofs.CursorShape
 import GrVerif.Props.C07
 /-!
 # C02 — shaping any accepted font with any text is safe, terminating and bounded   (partial)
@@ -37,6 +38,23 @@ What the Lean side contributes (model: `Model/Pass.lean`, `Model/Action.lean`, `
   driver applies the same clamp).  The model's loop counter is the `GRAPHITE2_VERIF` hook's counter; the two reports are
   compared on every synthesised font, including fonts whose rules jump far back after deleting behind the mark.
   The model's recursion fuel is provably never what ends a run (`fuel_is_never_the_reason`).
+* **the cursor of a rule's action** (`Proofs/Cursor.lean`, `Proofs/CursorPass.lean`, `Proofs/CursorShape.lean`): the machine writes
+  through its cursor without testing it (`is->setGlyph`, `is->setAttr`, `is->before/after` in `put_glyph`, `put_subs`, `attr_set`…,
+  `assoc`); what keeps `is` from being null is the loader, which tracks the cursor's position in the rule's output
+  (`_out_index`, `_out_length`) and lets those opcodes through only where `0 ≤ _out_index < _out_length` (`test_context()`).
+  `no_write_through_a_null_cursor`: for every font whose rule code passes those tests (`fontOK`, an executable check the driver
+  evaluates on every font it runs and the harness demands of every font the real loader accepted), every text, direction and
+  fuel, whatever error the pipeline model reports is not one of its four null-cursor faults.  The proof relates the loader's
+  two numbers to the run-time state (`PosOK`: at least `_out_index` slots of the stream in front of the cursor, at least
+  `_out_length - _out_index` from it on), shows that every opcode keeps the relation (`opcode_keeps_cursor_position`), that the
+  matcher fills the slot map with consecutive slots of the stream and `testConstraint` only lets a rule through whose last slot is
+  in the map (so an action starts with `_out_index = preContext` slots in front and `sort - preContext` from the cursor on), and
+  that the rule loop only ever stands on a slot of the stream (`rule_loop_stands_on_the_stream`).
+  That last invariant did NOT hold in the tree this work started from: `SlotMap::collectGarbage` moved the cursor off a freed
+  slot only for the map cells it visits, so an action could hand the deleted former first slot back to the rule loop; a rule
+  matching there ran `INSERT; NEXT; ATTR_SET` on an empty stream and dereferenced a null slot (`fix: SlotMap::collectGarbage …`
+  and `fix: the bytecode loader refuses a DELETE of the slot after the rule` in /repo; the model's `offDeleted` and the DELETE bound
+  of `Model/CodeLoad` are the repaired behaviour; both failing fonts are kept in /verif/corpus/e2e).
 
 Everything else in C02 (no out-of-bounds access, no undefined behaviour, no leak in the whole of `gr_make_seg`, positioning,
 collision fixing, queries and destruction) is decided on the implementation under ASan/UBSan/LSan with synthesised fonts,
@@ -150,6 +168,49 @@ example : (jumpFont 4).ipos ≤ (jumpFont 4).passes.size ∧ ∀ k, k < (jumpFon
   refine ⟨by decide, fun k hk => ?_⟩
   have : k = 0 := by simp [jumpFont] at hk; omega
   subst this; decide
+
+/-! ### the cursor of a rule's action is never null where the machine writes through it -/
+
+/-- every slot opcode and every scalar opcode keeps the relation between the loader's `(_out_index, _out_length)` and the
+position of the cursor in the stream; an opcode that passed the loader's test never ends in a null-cursor fault -/
+theorem opcode_keeps_cursor_position (cur cur' : Cur) (s : St) (i : Instr) (h : Tr cur s.ctx) (hs : curStep cur i = some cur') :
+    StepT (Tr cur') (stepInstr s i) := stepInstr_track cur cur' s i h hs
+
+/-- a whole action: started on a slot of the stream with `cur.idx` slots in front of it and `cur.len - cur.idx` from it on, code that
+passed the loader's cursor tests never stops with a null-cursor fault -/
+theorem action_never_writes_through_null {is : List Instr} {dl : Bool} {mr : Nat} {data : List Nat} {ctx : Ctx} {cur cur' : Cur} {l : List Nat}
+    (hj : J (enterCtx (startCtx ctx)) l) (hp : PosOK cur l (enterCtx (startCtx ctx)).is) (hlv : Live l (enterCtx (startCtx ctx)).is)
+    (hc : curRun cur is = some cur') {w : String} (e : doAction is dl mr data ctx = .error w) : ¬ nullFault w :=
+  doAction_noNullFault hj hp hlv hc e
+
+/-- `SlotMap::collectGarbage` (after the repair): the cursor it hands back is null or a slot of the stream -/
+theorem garbage_collection_hands_back_a_stream_slot (c : Ctx) (a : Option Nat) {l : List Nat} (h : JO c l a) :
+    ∀ x, (collectGarbage c a).2 = some x → x ∈ l := gc_mem c a h
+
+/-- one step of the rule loop from a slot of the stream ends on a slot of the stream (or at the end), and whatever error it reports
+is not a null-cursor fault -/
+theorem rule_loop_stands_on_the_stream (p : PassT) (c : Ctx) (slot : Nat) {l : List Nat} (h : JO c l (some slot)) (hs : slot ∈ l)
+    (hp : passOK p = true) :
+    (∀ {w : String}, findNDoRule p c slot = .error w → ¬ nullFault w) ∧
+    (∀ {c' : Ctx} {s' : Option Nat} {st : Status}, findNDoRule p c slot = .ok (c', s', st) → ∃ l', JO c' l' s' ∧ Live l' s') :=
+  findNDoRule_safe p c slot h hs hp
+
+/-- **the pipeline, every text, every font whose rule code passed the loader's cursor tests**: no write through a null cursor -/
+theorem no_write_through_a_null_cursor (font : Font) (hf : fontOK font = true) (text : List Nat) (fuel : Nat) (dir : Nat) {w : String}
+    (e : shape font text fuel dir = .error w) : ¬ nullFault w := shape_noNullCursor font hf text fuel dir e
+
+/-! non-vacuity: the jump font above meets the hypothesis.  At the level of one action the hypothesis is what stands between the
+machine and the null pointer: on a one-slot stream the code `next; put_glyph` (`_out_index = 1 = _out_length` at the `put_glyph`:
+refused by `test_context()`) fails `curRun` and the model reports exactly the fault the theorems exclude, while `put_glyph; next`
+passes and runs.  (Through `shape` the fault cannot be shown: there `Code::run`'s own test of the furthest slot reference stops such
+code first - the model's `maxRef`, here handed in as 0.) -/
+example : fontOK (jumpFont 4) = true := by decide +kernel
+def oneSlotSeg : Seg := { slots := #[({} : Slot)], first := some 0, last := some 0, numGlyphs := 1 }
+def oneSlot : Ctx :=
+  { seg := oneSlotSeg, smap := #[none, some 0, none], size := 2, «context» := 0, maxSize := 100, map := 0, is := none }
+example : curRun ⟨0, 1, false⟩ [(25, []), (59, [0, 0])] = none ∧ curRun ⟨0, 1, false⟩ [(59, [0, 0]), (25, [])] = some ⟨1, 1, false⟩ := by decide
+example : (match doAction [(25, []), (59, [0, 0])] false 0 [] oneSlot with | .error w => w | _ => "") = "put_glyph: `is` is null" := by decide +kernel
+example : (match doAction [(59, [0, 0]), (25, [])] false 0 [] oneSlot with | .error _ => false | .ok _ => true) = true := by decide +kernel
 
 /-! ### non-vacuity: a looping state machine (a+ b) on 100 a's stops at the slot-map limit -/
 def loopPass : PassT :=
